@@ -25,6 +25,7 @@ import (
 	"hash/fnv"
 	"math/big"
 	"os"
+	"runtime/pprof"
 	"sort"
 	"strings"
 	"unicode/utf8"
@@ -461,6 +462,7 @@ type engine struct {
 	inSet    map[*decode.Value]bool // nodes that are enumerated as values (by some shard)
 	seen     map[uint64]bool        // carriers already expanded in this shard
 	maxLevel int
+	followAll bool // thorough: every parameter value of a first node is continued
 	only     string
 }
 
@@ -473,6 +475,7 @@ func newEngine(r *core.Run, s *fqrun.Session) *engine {
 		}
 	}
 	e.maxLevel = core.Pick(r, 2, 3)
+	e.followAll = r.Thorough()
 	return e
 }
 
@@ -574,30 +577,26 @@ func (e *engine) apply(items []*item, qs []qnode, full bool) (next []*item) {
 			}
 			e.judgeChunk(ev, &next)
 			for _, q := range isolated {
-				iso := e.isolated[q.text]
-				var batch []*item
-				for i := range part {
-					if iso.panics || part[i].origin.t.mutable {
-						one := e.evalChunk(part[i:i+1], []qnode{q}, full)
-						if one.pe != nil {
-							e.panicViolation(part[i], q, one.pe)
-							continue
-						}
-						if t := e.mutated(part[i : i+1]); t != nil {
-							e.mutationViolation(part[i], q, t)
-							e.repair(part[i : i+1])
-						}
-						e.judgeChunk(one, &next)
-					} else {
-						batch = append(batch, part[i])
-					}
-				}
-				if len(batch) > 0 {
-					ev := e.evalChunk(batch, []qnode{q}, full)
-					if ev.pe != nil {
-						panic("c08: isolated node panics on a batch it did not panic on before: " + q.text)
-					}
+				// optimistic: the whole chunk at once; item by item only when that
+				// panics or changes a tree
+				ev := e.evalChunk(part, []qnode{q}, full)
+				if ev.pe == nil && e.mutated(part) == nil {
 					e.judgeChunk(ev, &next)
+					continue
+				}
+				e.repair(part)
+				for i := range part {
+					one := e.evalChunk(part[i:i+1], []qnode{q}, full)
+					if one.pe != nil {
+						e.panicViolation(part[i], q, one.pe)
+						continue
+					}
+					// judge first: an output may alias the container that repair resets
+					e.judgeChunk(one, &next)
+					if t := e.mutated(part[i : i+1]); t != nil {
+						e.mutationViolation(part[i], q, t)
+						e.repair(part[i : i+1])
+					}
 				}
 			}
 			break
@@ -651,6 +650,9 @@ func (e *engine) pinpoint(part []*item, main []qnode, full bool) bool {
 func (e *engine) panicViolation(it *item, q qnode, pe *fqrun.PanicError) {
 	chain := append(append([]string{}, it.chain...), q.text)
 	sig := "go-panic:" + q.text + ":" + it.rhsType + ":" + core.PanicSite(pe.Stack)
+	if q.text == "{(.): 1}" && it.isDV && (it.rhsType == "array" || it.rhsType == "object") && strings.Contains(fmt.Sprint(pe.Value), "invalid type: gojqx.FuncTypeNameError") {
+		sig = "compound-decode-value-as-object-key-go-panic"
+	}
 	e.r.Violate(sig, fmt.Sprintf("`%s` on %s (value %s) ends in a Go panic that escapes the evaluation (%v); on its tovalue it is an ordinary result or error", strings.Join(chain, " | "), it.origin.String(), trunc(canon(it.rhs, cmode{}), 80), pe.Value),
 		map[string]any{"kind": "query", "tree": it.origin.t.name, "path": it.origin.path, "chain": chain, "signature": sig})
 }
@@ -793,7 +795,7 @@ func (e *engine) driverFor(qs []qnode) string {
 // judge compares the two observations of one query instance on one item and
 // returns the carriers for the next layer.
 func (e *engine) judge(it *item, q qnode, par any, l, r res) (next []*item) {
-	if it.unsorted && !q.ordfree {
+	if it.unsorted && !(q.ordfree || q.ordfree1 && it.level == 1) {
 		// documented difference 1 makes the result legitimately order dependent
 		e.r.Count("skipped_order_dependent_on_unsorted_struct", 1)
 		return nil
@@ -857,6 +859,10 @@ func (e *engine) judge(it *item, q qnode, par any, l, r res) (next []*item) {
 		return nil
 	}
 	if it.level >= e.maxLevel {
+		return nil
+	}
+	if q.par != "" && !e.followAll && !inReduced(it, q, par) {
+		e.r.Count("outputs_not_followed_parameter_outside_reduced_pool", int64(len(lorder)))
 		return nil
 	}
 	for i := range lorder {
@@ -931,36 +937,36 @@ func foreignType(v any) string {
 	return fmt.Sprintf("%T", v)
 }
 
+// inReduced: par belongs to the reduced pool of its kind (the pools used at node
+// positions >= 2); in the quick tier only such first nodes are continued.
+func inReduced(it *item, q qnode, par any) bool {
+	K, I, AB, P := pools(it.rhs, false)
+	var pool []any
+	switch q.par {
+	case "k":
+		pool = K
+	case "i":
+		pool = I
+	case "ab":
+		pool = AB
+	case "p":
+		pool = P
+	}
+	c := canon(par, cmode{})
+	for _, x := range pool {
+		if canon(x, cmode{}) == c {
+			return true
+		}
+	}
+	return false
+}
+
 func seq(n int) []int {
 	s := make([]int, n)
 	for i := range s {
 		s[i] = i
 	}
 	return s
-}
-
-// classify names a disagreement narrowly.
-func classify(it *item, q qnode, par any, l, r res, lc, rc []string) (sig, why string) {
-	vt := it.rhsType
-	if q.text == "length" && vt == "number" && len(lc) == 1 && len(rc) == 1 && !l.err && !r.err && strings.HasPrefix(lc[0], "-") && lc[0] == "-"+rc[0] {
-		return "length-of-negative-number-decode-value", "length of a negative number must be its absolute value"
-	}
-	kind := "value"
-	switch {
-	case l.err != r.err:
-		kind = "error-presence"
-	case len(lc) != len(rc):
-		kind = "output-count"
-	}
-	where := "value"
-	if !it.isDV {
-		where = "carrier"
-	}
-	p := ""
-	if q.par != "" {
-		p = ":" + paramClass(par, it)
-	}
-	return fmt.Sprintf("diff:%s:%s:%s:%s%s", kind, where, vt, q.text, p), "results differ"
 }
 
 // paramClass abstracts a parameter value for signatures.
@@ -998,6 +1004,12 @@ func run(r *core.Run) {
 			probe(s, p)
 		}
 		return
+	}
+	if p := os.Getenv("C08_PROF"); p != "" && r.ShardIdx == 0 {
+		if f, err := os.Create(p); err == nil {
+			_ = pprof.StartCPUProfile(f)
+			defer pprof.StopCPUProfile()
+		}
 	}
 	r.Rule("a query instance (pipeline text with its parameter values, applied to one value) is non-trivial when at least one side produced an output (not error-only); distinct = distinct (pipeline text, JSON value of the input) pairs")
 	for _, a := range assumptions {
